@@ -1297,6 +1297,10 @@ class Context:
                     raise NotImplementedError("time range loading not yet supported for superruns")
 
                 sub_run_spec = self.run_metadata(run_id, projection="sub_run_spec")["sub_run_spec"]
+                # The subruns are concatenated in order of run start. define_run stores the
+                # spec in that order, but a storage frontend need not preserve the order of a
+                # dictionary (DataDirectory writes json with sorted keys), so restore it here.
+                sub_run_spec = self._sub_run_spec_by_start(sub_run_spec)
 
                 # Make subruns if they do not exist.
                 self.make(
@@ -1485,6 +1489,24 @@ class Context:
             savers=savers,
             targets=strax.to_str_tuple(final_plugin),
         )
+
+    def _sub_run_spec_by_start(self, sub_run_spec: dict) -> dict:
+        """Return sub_run_spec ordered by the start of the subruns, as define_run ordered it.
+
+        If the start of a subrun is not available, the spec is returned as it is.
+
+        """
+        starts = dict()
+        for subrun in sub_run_spec:
+            try:
+                start = self.run_metadata(subrun, projection=["start"])["start"]
+                starts[subrun] = start.replace(tzinfo=datetime.timezone.utc)
+            except (strax.RunMetadataNotAvailable, KeyError, AttributeError):
+                return sub_run_spec
+        return {
+            subrun: sub_run_spec[subrun]
+            for subrun in sorted(sub_run_spec, key=lambda subrun: starts[subrun])
+        }
 
     def get_data_key(self, run_id, target, lineage, combining=False):
         """Get datakey for a given run_id, target and lineage.
